@@ -423,7 +423,7 @@ func main() {
 	ctx := newInterp(nil, nil, nil).VerifContext()
 	ks := nameCases(ctx.GOOS, ctx.GOARCH)
 	nNames := len(ks)
-	ks = append(ks, headerCases(r.Thorough())...)
+	ks = append(ks, headerCases(true)...)
 	nHeaders := len(ks) - nNames
 	ks = append(ks, e2eCases(ctx.GOOS, ctx.GOARCH)...)
 	ks = append(ks, kase{Kind: "sharedtags", Class: "two interpreters created from one BuildTags slice, each adding a yaegi:tags tag"})
